@@ -1,9 +1,32 @@
-''' Import-only stub: configuration files are never loaded by the harness. '''
+''' Minimal stand-in for PyYAML: documents in JSON form only.
+
+YAML 1.2 is a superset of JSON, so a configuration file written in JSON flow
+style is a valid YAML document; that subset is all the harness writes, and all
+this module reads (anything else raises).  This lets the checks build their
+configurations through the repository's own Config.from_file(), as a
+deployment does. '''
+import json
 
 
-def safe_load(_stream):
-    raise NotImplementedError('yaml is not available in the verification sandbox')
+class YAMLError(Exception):
+    pass
 
 
-def safe_dump(*_a, **_k):
-    raise NotImplementedError('yaml is not available in the verification sandbox')
+def safe_load(stream):
+    text = stream.read() if hasattr(stream, 'read') else stream
+    if isinstance(text, bytes):
+        text = text.decode('utf-8')
+    if not text.strip():
+        return None
+    try:
+        return json.loads(text)
+    except ValueError as err:
+        raise YAMLError('only JSON-form YAML documents are supported by the verification stand-in: %s' % err)
+
+
+def safe_dump(data, stream=None, **_k):
+    text = json.dumps(data)
+    if stream is not None:
+        stream.write(text)
+        return None
+    return text
